@@ -303,6 +303,115 @@ func c06Exec(scAny any, c *simcheck.Ctx) *simcheck.Violation {
 			return simcheck.V("load-not-deterministic", "two loads of the same tree gave %v and %v", first, got)
 		}
 	}
+	if cyclic || broken || len(h.p.Modules) == 0 || h.lastProj == nil {
+		return nil
+	}
+	return c06Reloads(h, c, reach)
+}
+
+// c06Reloads: watch mode. The loaded project is reloaded after an edit that breaks the load
+// graph (a cycle, a failing module) - that reload must fail, and say so for a cycle - and
+// again after the edit is undone: that reload must succeed and list the project's targets.
+func c06Reloads(h *histRun, c *simcheck.Ctx, reach map[string]bool) *simcheck.Violation {
+	t := c.Tapes.Get("reloads")
+	if t.Intn(2) == 0 {
+		return nil
+	}
+	var reachable []int
+	for i := range h.p.Modules {
+		if reach[h.p.Modules[i].label()] {
+			reachable = append(reachable, i)
+		}
+	}
+	if len(reachable) == 0 {
+		return nil
+	}
+	h.keepFailedReload = true
+	rounds := 1 + t.Intn(2)
+	for k := 0; k < rounds; k++ {
+		mi := reachable[t.Intn(len(reachable))]
+		m := &h.p.Modules[mi]
+		savedFails, savedHow := m.Fails, m.FailHow
+		savedLoads := make([][]int, len(h.p.Modules))
+		for i := range h.p.Modules {
+			savedLoads[i] = append([]int{}, h.p.Modules[i].Loads...)
+		}
+		what := ""
+		wantCycle := false
+		switch t.Intn(3) {
+		case 0:
+			m.Fails, m.FailHow = true, t.Intn(3)
+			what = fmt.Sprintf("module %s now fails while loading", m.label())
+		case 1:
+			m.Loads = append(m.Loads, mi)
+			what, wantCycle = fmt.Sprintf("module %s now loads itself", m.label()), true
+		default:
+			// close a cycle through another module that this one reaches, if there is one
+			if len(m.Loads) == 0 {
+				m.Loads = append(m.Loads, mi)
+				what, wantCycle = fmt.Sprintf("module %s now loads itself", m.label()), true
+				break
+			}
+			o := &h.p.Modules[m.Loads[t.Intn(len(m.Loads))]]
+			if len(o.Consts)+len(o.Funcs) == 0 || o == m {
+				m.Loads = append(m.Loads, mi)
+				what, wantCycle = fmt.Sprintf("module %s now loads itself", m.label()), true
+				break
+			}
+			o.Loads = append(o.Loads, mi)
+			what, wantCycle = fmt.Sprintf("modules %s and %s now load each other", m.label(), o.label()), true
+		}
+		var err error
+		if h.prev, err = h.p.sync(h.w.root, h.prev); err != nil {
+			return simcheck.V(simcheck.EngineError, "sync: %v", err)
+		}
+		h.w.events = nil
+		res := h.build(10+2*k, &opSpec{Op: "load-only", Reload: true}, h.pc, nil)
+		if v := procFailure(res); v != nil {
+			if v.Class != simcheck.EngineError {
+				v.Msg = fmt.Sprintf("reload after an edit (%s): %s", what, v.Msg)
+			}
+			return v
+		}
+		c.St.Count("reloads_of_a_broken_tree", 1)
+		if res.LoadErr == nil {
+			return simcheck.V("broken-reload-succeeded", "%s, but reloading the loaded project succeeded", what)
+		}
+		if wantCycle && !strings.Contains(res.LoadErr.Error(), "cyclic dependency") {
+			return simcheck.V("cycle-error-not-reported", "%s, but the reload error does not say so: %v", what, res.LoadErr)
+		}
+		// undo the edit
+		m.Fails, m.FailHow = savedFails, savedHow
+		for i := range h.p.Modules {
+			h.p.Modules[i].Loads = savedLoads[i]
+		}
+		if h.prev, err = h.p.sync(h.w.root, h.prev); err != nil {
+			return simcheck.V(simcheck.EngineError, "sync: %v", err)
+		}
+		h.w.events = nil
+		res = h.build(11+2*k, &opSpec{Op: "load-only", Reload: true}, h.pc, nil)
+		if v := procFailure(res); v != nil {
+			if v.Class != simcheck.EngineError {
+				v.Msg = fmt.Sprintf("reload after the edit (%s) was undone: %s", what, v.Msg)
+			}
+			return v
+		}
+		if res.LoadErr != nil {
+			return simcheck.V("repaired-reload-failed", "%s; the reload failed; the edit was undone, but reloading the same project still fails: %v", what, res.LoadErr)
+		}
+		var got []string
+		for _, tg := range res.Proj.Targets() {
+			got = append(got, tg.Label().String())
+		}
+		for _, f := range res.Proj.Flags() {
+			got = append(got, "flag:"+f.Name)
+		}
+		sort.Strings(got)
+		if want := h.p.expectedTargets(); strings.Join(got, " ") != strings.Join(want, " ") {
+			return simcheck.V("wrong-targets", "after a failed and a repaired reload the project lists %v, not %v", got, want)
+		}
+		c.St.Count("repaired_reloads_checked", 1)
+	}
 	return nil
 }
 
